@@ -223,6 +223,7 @@ func (c *fctx) loopCheck(fr *frame, key string) {
 func (c *fctx) doAlloc(fr *frame, t types.Type, reach string, st *state, hint string) string {
 	r := c.allocate(st, reach, hint)
 	c.loopCheck(fr, "alloc")
+	c.ghostInit(fr, t, r, st)
 	if si := c.S.StructOf(t); si != nil {
 		for _, f := range si.Fields {
 			key, srt := "F:"+si.Name+"."+f.Name, "(Array Int "+f.Sort+")"
@@ -243,6 +244,35 @@ func (c *fctx) doAlloc(fr *frame, t types.Type, reach string, st *state, hint st
 	c.loopCheck(fr, key)
 	c.setRegion(st, key, "(Array Int "+srt+")", fmt.Sprintf("(store %s %s %s)", c.region(st, key, "(Array Int "+srt+")"), r, c.S.Zero(t)))
 	return r
+}
+
+// ghostInit gives the ghost states declared with an initial value (`ghost state g(x *T) R = e`) that value for a freshly
+// allocated T (Go zero-initialises it; the declaration says what the abstract state of a zero T is).
+func (c *fctx) ghostInit(fr *frame, t types.Type, ref string, st *state) {
+	for _, name := range c.P.GhostInits {
+		pf := c.P.Pures[name]
+		if pf == nil || !pf.State || pf.Init == nil || len(pf.Params) != 1 {
+			continue
+		}
+		file := c.P.FileOfPkg[pf.File]
+		gt, psort, err := c.P.ResolveType(pf.Params[0].Type, file, c.S)
+		if err != nil || gt == nil {
+			continue
+		}
+		pt, ok := types.Unalias(gt).Underlying().(*types.Pointer)
+		if !ok || !types.Identical(pt.Elem(), t) {
+			continue
+		}
+		_, rsort, err := c.P.ResolveType(pf.Result, file, c.S)
+		if err != nil {
+			continue
+		}
+		e := &env{c: c, vars: map[string]sval{}, file: file}
+		iv := e.tr(pf.Init)
+		key, srt := "X:"+pf.Name, "(Array "+psort+" "+rsort+")"
+		c.loopCheck(fr, key)
+		c.setRegion(st, key, srt, fmt.Sprintf("(store %s %s %s)", c.region(st, key, srt), ref, iv.t))
+	}
 }
 
 func (c *fctx) nilCheck(fr *frame, a *addr, ptr ssa.Value, pos token.Pos, reach string) {
